@@ -153,14 +153,14 @@ PLANS.update({
 })
 MANIFEST_TEXT.update({
     "C02": {"text": "Signatures are a ledger of signed texts; TLC exhausts MC_sig (two issuers, three key families, alter/splice/strip/alg-rewrite/re-sign, resolvers constant and keyed by iss) with "
-                    "Inv_C02 (accepted => the JWT text is one Issue produced under the resolver's key). Behaviours are replayed against the real verifier and, with the single-character "
+                    "Inv_C02 (accepted => the JWT text is one Issue produced under the resolver's key), and simulates MC_mix_sim (all 14 adversary moves, <= 5 steps). Behaviours are replayed against the real verifier and, with the single-character "
                     "mutation space of real tokens, validated by TLC: the specified verifier (SpecVerify) rejecting at stage sig/parse obliges the implementation to reject.",
             "note": _NOTE, "technique": "TLA+ Dolev-Yao model checked by TLC + scenario replay + trace validation of mutation families"},
     "C03": {"text": "TLC exhausts MC_disc: every sequence of <= 2 adversary steps over a pool of genuine, altered, forged, foreign and garbage disclosures, with Inv_C03 (claims = Unpack over the "
-                    "genuine presented disclosures). Replay + text-level re-serialisations are validated by TLC against Unpack on real SHA-256 digests (verify.claims, verify.genuine).",
+                    "genuine presented disclosures), and simulates MC_dk_sim (9 disclosure / key-binding moves, <= 4 steps). Replay + text-level re-serialisations are validated by TLC against Unpack on real SHA-256 digests (verify.claims, verify.genuine).",
             "note": _NOTE, "technique": "TLA+ bounded model checking (TLC) + scenario replay + trace validation"},
     "C04": {"text": "TLC exhausts MC_kb (KB-JWT moved, stripped, altered, re-signed by adversary / issuer keys of three families, forged, disclosure list changed afterwards; six (aud, nonce) "
-                    "expectations) with Inv_C04 / Inv_C04args; behaviours are replayed in both serializations and validated together with single-character edits of real KB-JWTs.",
+                    "expectations) with Inv_C04 / Inv_C04args (SpecVerify names every failed requirement: KBFlaws; single-flaw behaviours are counted per requirement), simulates MC_dk_sim; behaviours are replayed in both serializations and validated together with single-character edits of real KB-JWTs.",
             "note": _NOTE, "technique": "TLA+ bounded model checking (TLC) + scenario replay + trace validation"},
     "C10": {"text": "The specification's messages are format independent; the conformance side verifies every honest and tampered message of the C02-C04 families in both serializations "
                     "(own transcoder; kb_jwt absent / null / extra member) and requires equal decision and claims (pair.format), and equal selections from holders built from both forms (pair.present).",
